@@ -14,7 +14,7 @@ RULE = ("inputs = (1) grammar-aware random scripts including cyclic / dangling i
         "verbs, connectives, comparisons, numbers, 1j, 0x.., quotes, paths, me/main/all/any) of the example plans and of generated "
         "programs; each built by the real Builder under an interval-timer watchdog; distinct = distinct script text; non-trivial = "
         "the script differs from a valid one and reached the builder's dispatch (at least one verb line)")
-RULE = __import__("vf.core", fromlist=["rule_add"]).rule_add(RULE, 'also paths through shares, 240 marker scripts and clone cycles (a moot cloned into itself through a chain), every numeric slot given 32 near-numbers, names that meet (clone / framer / actor kind / tasker)')
+RULE = __import__("vf.core", fromlist=["rule_add"]).rule_add(RULE, 'also paths through shares, 240 marker scripts and clone cycles (a moot cloned into itself through a chain), every numeric slot given 32 near-numbers, names that meet (clone / framer / actor kind / tasker), `under` loops through non primary children, `load` of things that cannot be opened; reference graphs that build are built once more with the console at its default verbosity')
 META = {"engine": "A floscript (build only)", "technique": "fuzzing with an outcome-class oracle and a termination watchdog",
         "level_text": "Each input is really built; the outcome must be success, False, ParseError, ResolveError or a ValueError of the literal "
                       "converters (or an explicit script-attributable `raise ValueError(\"...\")`); any other exception type is an internal "
